@@ -221,6 +221,21 @@ CLAIMED["C13"] = dict(
     technique="TLA+ specifications (Iso, SpecValid, WordUniverse); result validation by TLC over all pairs",
 )
 
+CLAIMED["C18"] = dict(
+    category="model_checking",
+    text="Serial.tla fixes the wire format of each rule form (which keys, which nesting) and its inverse; TLC proves Dec(Enc(r)) = r "
+         "and the key sets on all rule trees of depth <= 3. For every rule (nested ones included) of every campaign specification "
+         "- plain, verification, equivalence, equivalence path, reverse - TLC checks that the projected emitted dictionary is "
+         "Enc(form tree), has exactly the keys of its form, decodes to the same tree, that the reloaded rule has the same tree "
+         "and == holds; the reloaded specification equals the original and enumerates the ground truth; packs round-trip slot "
+         "by slot; strategy equality = same kind and settings for instances obtained directly, through a generic alias, by "
+         "from_dict, copy, deepcopy and pickle (and inequality for different settings/kinds). Bijection round trips: C12.",
+    design_ref="DESIGN.md 3/C18",
+    note="This family decides structure (wire format, form algebra, equality semantics, behaviour of the reloaded object), not byte-"
+         "level fidelity of user classes' JSON, which is an input contract.",
+    technique="TLA+ wire-format model + TLC model checking; result validation by TLC",
+)
+
 NOT_YET = {}
 
 ALL = ["C%02d" % i for i in range(1, 21)]
